@@ -39,7 +39,7 @@ type shardSpec struct {
 
 const rule = "a case is one history: 1-3 resources (identifiers with/without directories and extensions), 0-2 indexes (AutoDownload, PreRelease), " +
 	"registry flags Online/DevMode/UsePreReleases, 1-13 versions per resource drawn from a small pool (stable, pre-release tags, dev 0.0.0, re-added with other flags, unordered; " +
-	"1 in 12 histories also uses non-canonical spellings), then 8-40 operations from {AddResource, SelectVersions, GetFile, Blacklist(any listed / the selected version), " +
+	"1 in 12 histories also uses non-canonical spellings; in 1 of 4 multi-resource histories two resources are an identifier pair (x, x.zip) / (x.tar, x.tar.gz) / (x, x.gz) / (x.mmdb, x.mmdb.gz) with overlapping version sets), then 8-40 operations from {AddResource, SelectVersions, GetFile, Blacklist(any listed / the selected version), " +
 	"flag changes, Index.AutoDownload changes, Purge(keep -1..5), ScanStorage, GetSelectedVersions, AddResource with an invalid version}; after every operation the exported registry " +
 	"state (versions+flags, selected, active), GetVersion, the results of GetFile/Blacklist and the storage directory listing are compared with the reference model. " +
 	"distinct = distinct operation scripts; every history is non-trivial (at least one selection is compared). " +
@@ -90,6 +90,8 @@ func main() {
 		rep.Floor(rep.Counter("selected_blacklisted_fallback-newest") >= q(100, 2000), "blacklisted version prescribed as last resort only %d times", rep.Counter("selected_blacklisted_fallback-newest"))
 		rep.Floor(rep.Counter("op_purge") >= q(1500, 30000), "purges=%d", rep.Counter("op_purge"))
 		rep.Floor(rep.Counter("purge_resources_with_removals") >= q(300, 6000), "purges that removed files=%d", rep.Counter("purge_resources_with_removals"))
+		rep.Floor(rep.Counter("purge_unpacked_path_is_file_of_sibling_resource") >= q(30, 600),
+			"purges whose unpacked path is the file of a sibling resource (x / x.zip)=%d", rep.Counter("purge_unpacked_path_is_file_of_sibling_resource"))
 		rep.Floor(rep.Counter("blacklist_accepted") >= q(500, 10000) && rep.Counter("blacklist_refused_last_version") >= q(100, 2000),
 			"blacklist accepted=%d refused-last=%d", rep.Counter("blacklist_accepted"), rep.Counter("blacklist_refused_last_version"))
 		rep.Floor(rep.Counter("getfile_local") >= q(2000, 40000) && rep.Counter("getfile_not_available") >= q(40, 800) && rep.Counter("getfile_downloaded") >= q(50, 1000),
@@ -100,7 +102,7 @@ func main() {
 	}
 	rep.Assume("reference model = the selection order, the definition of 'selectable', the additive flag semantics of AddVersion and the blacklist guard as documented in updater/resource.go and registry.go and in the property statement; own version parser/comparator (numeric segments, release > pre-release, tags lexical)")
 	rep.Assume("purge retention is judged as 'the files a version had before Purge are still there afterwards' for the active, selected and newest non-pre-release version and for min(keep, #further) further versions (a version without local files counts as untouched)")
-	rep.Assume("single-threaded histories; identifiers within a registry do not collide on their unpacked path (name vs name.ext)")
+	rep.Assume("single-threaded histories; purges are registry-level (ResourceRegistry.Purge): a registry-attached *Resource is not reachable through the exported API")
 	if err := rep.Finish(); err != nil {
 		fmt.Println("h_updater: cannot write result:", err)
 		os.Exit(2)
